@@ -311,7 +311,8 @@ def run(ctx):
     cls, _ = sc.load_source(ctx, src, f'YO{j}')
     expect_reject(ctx, f'YO{j}', src, cls, f'a cyclic constraint graph {cyc} that carries no signal (its blocks also feed a block outside the cycle)')
   # stdlib CL designs: executed order must be a linear extension of GenDAGPass's constraint set
-  cl_orders(ctx)
+  # (the earlier stdlib-only CL probe is superseded by cl_method_designs)
+  cl_method_designs(ctx, coq_cases, coq_meta)
   defs = '''
 Definition case_ok (c : design * list (list nat)) : bool :=
   let '(d, os) := c in wf_design d && forallb (sched_ok d) os.
@@ -324,6 +325,165 @@ Definition case_ok (c : design * list (list nat)) : bool :=
                   {'design_source': src, 'blocks': bnames, 'schedules': dict(zip(onames, orders)), 'acceptor_result': parts[0]})
   ctx.sample({'design': coq_meta[3][0], 'source_tail': coq_meta[3][1][-500:], 'blocks': coq_meta[3][4], 'observed_orders': dict(zip(coq_meta[3][2], coq_meta[3][3]))})
   ctx.extra.update({'designs': len(coq_cases)})
+
+CL_LIB = """
+from pymtl3 import *
+from pymtl3.stdlib.queues.cl_queues import PipeQueueCL, BypassQueueCL, NormalQueueCL
+class Src( Component ):
+  def construct( s ):
+    s.send = CallerIfcCL(); s.n = 0
+    @update_once
+    def up_src():
+      if s.send.rdy():
+        s.send( Bits8( s.n & 255 ) ); s.n += 1
+class St( Component ):
+  def construct( s, kind ):
+    s.send = CallerIfcCL(); s.q = []
+    @update_once
+    def up_st():
+      if s.q and s.send.rdy(): s.send( s.q.pop(0) )
+    if kind == 1:   s.add_constraints( M( s.recv ) < U( up_st ) )
+    elif kind == 2: s.add_constraints( U( up_st ) < M( s.recv ) )
+    elif kind == 3: s.add_constraints( M( s.recv ) < M( s.aux ), M( s.aux ) < U( up_st ) )     # through a method nobody calls
+  @non_blocking( lambda s: len( s.q ) < 2 )
+  def recv( s, msg ): s.q.append( msg )
+  @non_blocking( lambda s: True )
+  def aux( s ): return 0
+class Pull( Component ):
+  def construct( s ):
+    s.get = CallerIfcCL(); s.send = CallerIfcCL()
+    @update_once
+    def up_pull():
+      if s.get.rdy() and s.send.rdy(): s.send( s.get() )
+class Snk( Component ):
+  def construct( s ): s.got = []
+  @non_blocking( lambda s: True )
+  def recv( s, msg ): s.got.append( int( msg ) )
+"""
+
+def cl_design(name, rng):
+  """a chain  Src -> stage* -> Snk  of method-based (CL) components; every stage kind carries a different explicit
+  method / block constraint, stdlib CL queues (M==M-free M<M constraints) sit between some stages"""
+  L = ['s.src = Src()', 's.snk = Snk()']
+  prev = 's.src.send'
+  n = rng.randrange(1, 5)
+  for i in range(n):
+    if rng.random() < 0.4:
+      Q = rng.choice(['PipeQueueCL', 'BypassQueueCL', 'NormalQueueCL'])
+      L += [f's.q{i} = {Q}( {rng.randrange(1, 3)} )', f's.p{i} = Pull()', f'connect( {prev}, s.q{i}.enq )', f'connect( s.p{i}.get, s.q{i}.deq )']
+      prev = f's.p{i}.send'
+    else:
+      L += [f's.t{i} = St( {rng.randrange(0, 4)} )', f'connect( {prev}, s.t{i}.recv )']
+      prev = f's.t{i}.send'
+  L.append(f'connect( {prev}, s.snk.recv )')
+  body = '\n'.join('    ' + l for l in L)
+  return CL_LIB + f'\nclass {name}( Component ):\n  def construct( s ):\n{body}\n'
+
+def cl_method_designs(ctx, coq_cases, coq_meta):
+  """explicit METHOD constraints: the required block order is re-derived here from (i) the M/U constraints as declared and
+  (ii) which block REALLY calls which method (observed with sys.setprofile during simulation) — independently of
+  GenDAGPass._process_methods — and the executed schedule is checked against it by the Coq acceptor"""
+  import sys as _sys
+  from pymtl3.dsl.Connectable import NonBlockingIfc, BlockingIfc, MethodPort
+  rng = ctx.rng
+  for j in range(10 if ctx.tier == 'quick' else 120):
+    name = f'CL{j}'
+    src = cl_design(name, random.Random(rng.randrange(1 << 30)))
+    try:
+      cls, _ = sc.load_source(ctx, src, name)
+      orders = []; fp0 = None; req = None
+      for sch, sd in [('simple', 0), ('simple', 1), ('simple', 2), ('simple', 3), ('dynamic', 0)]:
+        top = sc.build(cls, sch, seed=sd)
+        fpl = sc.Footprints(top)
+        o = sc.static_order(top, fpl)
+        if o is None: continue
+        if fp0 is None:
+          fp0 = fpl
+          # underlying python function of a method reference
+          def und(x):
+            if isinstance(x, MethodPort): x = x.method
+            elif isinstance(x, (NonBlockingIfc, BlockingIfc)): x = x.method.method
+            while hasattr(x, '__wrapped__'): x = x.__wrapped__
+            return x
+          def mkey(f):
+            f = und(f)
+            return (getattr(f, '__func__', f).__code__, id(getattr(f, '__self__', None)))
+          cons = []
+          for (x, y, eq) in top._dsl.all_M_constraints:
+            if eq: continue
+            cons.append((('b', fpl.cid[x]) if x in fpl.cid else ('m', mkey(x)), ('b', fpl.cid[y]) if y in fpl.cid else ('m', mkey(y))))
+          mkeys = {n_[1] for c_ in cons for n_ in c_ if n_[0] == 'm'}
+          # observed call graph
+          calls = set(); stack = []
+          bcodes = {}
+          for b_ in fpl.comb:
+            if b_ in top._dag.genblks: continue
+            bcodes[(b_.__code__, id(top.get_update_block_host_component(fpl.orig.get(b_, b_))))] = fpl.cid[b_]
+          def prof(frame, event, arg):
+            if event == 'call':
+              k = (frame.f_code, id(frame.f_locals.get('s')))
+              if k in bcodes: stack.append(bcodes[k])
+              elif k in mkeys and stack: calls.add((stack[-1], k))
+              else: stack.append(None) if False else None
+            elif event == 'return':
+              k = (frame.f_code, id(frame.f_locals.get('s')))
+              if k in bcodes and stack: stack.pop()
+          top.sim_reset()
+          _sys.setprofile(prof)
+          try:
+            for _ in range(8): top.sim_tick()
+          finally: _sys.setprofile(None)
+          callers = {}
+          for (b_, k) in calls: callers.setdefault(k, set()).add(b_)
+          # closure over method-only chains
+          succ = {}
+          for (x, y) in cons: succ.setdefault(x, set()).add(y)
+          def reach_methods(x):
+            seen, todo = set(), [x]
+            while todo:
+              u = todo.pop()
+              for v in succ.get(u, ()):
+                if v not in seen:
+                  seen.add(v)
+                  if v[0] == 'm': todo.append(v)
+            return seen
+          req = set()
+          nodes = {n_ for c_ in cons for n_ in c_}
+          for x in nodes:
+            firsts = {x[1]} if x[0] == 'b' else callers.get(x[1], set())
+            for y in reach_methods(x):
+              lasts = {y[1]} if y[0] == 'b' else callers.get(y[1], set())
+              for a in firsts:
+                for b_ in lasts:
+                  if a != b_: req.add((a, b_))
+          if not top.snk.got: ctx.note(f'{name}: nothing reached the sink')
+        orders.append((f'{sch}#{sd}', o))
+        ctx.count((name, sch, sd), True, cls='cl-method:' + sch)
+      if fp0 is None or req is None: continue
+      both = {(a, b_) for (a, b_) in req if (b_, a) in req}
+      req -= both          # contradictory requirements (a design error of the generator) are not demanded
+      # statically: every required pair must follow from the constraint set the schedulers use (else some legal
+      # schedule of SimpleSchedulePass puts the blocks in the wrong order)
+      reach = {a: set() for a in range(len(fp0.comb))}
+      for (a, b_) in fp0.edges: reach[a].add(b_)
+      ch = True
+      while ch:
+        ch = False
+        for a in reach:
+          new_ = (set().union(*[reach[x] for x in reach[a]]) - reach[a]) if reach[a] else set()
+          if new_: reach[a] |= new_; ch = True
+      for (a, b_) in sorted(req):
+        if b_ not in reach[a]:
+          ctx.violation(f'C02:method-constraint-dropped:{name}:{fp0.comb[a].__name__}:{fp0.comb[b_].__name__}',
+                        f'design {name}: the declared method/block constraints together with the observed calls require {fp0.comb[a].__name__} (block {a}) before {fp0.comb[b_].__name__} (block {b_}), but the constraint set the schedulers use does not imply it',
+                        {'design_source': src, 'before': [a, fp0.comb[a].__name__], 'after': [b_, fp0.comb[b_].__name__], 'edges': fp0.edges})
+      oterm = coq_list([coq_list([f'{x}%nat' for x in o]) for _, o in orders])
+      coq_cases.append(f'({fp0.design_term(expl=sorted(req))}, {oterm})')
+      coq_meta.append((name, src, [n_ for n_, _ in orders], [o for _, o in orders], [b_.__name__ for b_ in fp0.comb]))
+      ctx.hist['family:cl-method-constraints'] = ctx.hist.get('family:cl-method-constraints', 0) + 1
+      ctx.hist['cl-required-pairs'] = ctx.hist.get('cl-required-pairs', 0) + len(req)
+    except Exception as e:
+      ctx.violation(f'C02:cl-design-crash:{type(e).__name__}', f'CL design failed: {type(e).__name__}: {str(e)[:200]}', {'design_source': src, 'traceback': traceback.format_exc()[-1500:]})
 
 def cl_orders(ctx):
   from pymtl3 import Component, Bits16, DefaultPassGroup
